@@ -176,6 +176,127 @@ theorem C08_dispatch (services : List (Method.Name × Method.ServiceDesc)) (n sv
                   · exact ih (i + 1) h
             exact this _ 0 hmem hu
 
+/-! ### dispatch: completeness and error classification -/
+
+theorem splitAtSlash_append (a b : Method.Name) (ha : 47 ∉ a) :
+    Method.splitAtSlash (a ++ 47 :: b) = some (a, b) := by
+  induction a with
+  | nil => simp [Method.splitAtSlash]
+  | cons c cs ih =>
+    have hc : c ≠ 47 := fun h => ha (by simp [h])
+    have hcs : 47 ∉ cs := fun h => ha (by simp [h])
+    simp [Method.splitAtSlash, hc, ih hcs]
+
+theorem splitAtSlash_none_iff (n : Method.Name) : Method.splitAtSlash n = none ↔ 47 ∉ n := by
+  induction n with
+  | nil => simp [Method.splitAtSlash]
+  | cons c cs ih =>
+    simp only [Method.splitAtSlash]
+    by_cases hc : c = 47
+    · simp [hc]
+    · simp only [hc, if_false]
+      cases hr : Method.splitAtSlash cs with
+      | none =>
+        have := ih.mp hr
+        simp [this]; exact fun h => hc h.symm
+      | some p =>
+        have : 47 ∈ cs := by
+          apply Classical.byContradiction; intro h; rw [ih.mpr h] at hr; cases hr
+        simp [this]
+
+theorem findIdx_complete {β} (p : β → Bool) : ∀ (l : List β) (i : Nat) (x : β), x ∈ l → p x = true →
+    ∃ r, Method.findIdx p l i = some r := by
+  intro l
+  induction l with
+  | nil => intro i x h; cases h
+  | cons y ys ih =>
+    intro i x h hp
+    simp only [Method.findIdx]
+    by_cases hy : p y = true
+    · simp [hy]
+    · simp only [hy, Bool.false_eq_true, if_false]
+      rcases List.mem_cons.mp h with h | h
+      · subst h; exact absurd hp hy
+      · exact ih (i + 1) x h hp
+
+/-- **A name is refused as malformed exactly when, after one optional leading
+    slash, it contains no slash** (nothing else is ever `InvalidArgument`, and
+    no such name reaches a handler). -/
+theorem C08_malformed_iff (services : List (Method.Name × Method.ServiceDesc)) (n : Method.Name) :
+    Method.resolve services n = .malformed ↔ 47 ∉ Method.stripSlash n := by
+  unfold Method.resolve Method.splitMethod
+  rw [← splitAtSlash_none_iff]
+  cases hs : Method.splitAtSlash (Method.stripSlash n) with
+  | none => simp
+  | some p =>
+    obtain ⟨svc, m⟩ := p
+    simp only [reduceCtorEq, iff_false]
+    cases services.lookup svc with
+    | none => simp
+    | some sd => cases hf : Method.findMethod sd m <;> simp [hf]
+
+/-- **Dispatch is complete**: a method that a registered service declares
+    (unary or streaming) is always found under its canonical name
+    `/service/method` — never `Unimplemented`, never malformed — and by
+    `C08_dispatch` what is found is that very descriptor. -/
+theorem C08_registered_found (services : List (Method.Name × Method.ServiceDesc)) (svc m : Method.Name)
+    (sd : Method.ServiceDesc) (hsvc : 47 ∉ svc) (hl : services.lookup svc = some sd)
+    (hm : m ∈ sd.methods ∨ m ∈ sd.streams.map (·.1)) :
+    ∃ f, Method.resolve services (47 :: (svc ++ 47 :: m)) = .found svc f := by
+  unfold Method.resolve Method.splitMethod
+  simp only [Method.stripSlash, splitAtSlash_append svc m hsvc, hl]
+  unfold Method.findMethod
+  cases hu : Method.findIdx (fun n => n == m) sd.methods 0 with
+  | some r => exact ⟨_, rfl⟩
+  | none =>
+    rcases hm with hm | hm
+    · obtain ⟨r, hr⟩ := findIdx_complete (fun n => n == m) sd.methods 0 m hm (by simp)
+      rw [hr] at hu; cases hu
+    · obtain ⟨e, he, hem⟩ := List.mem_map.mp hm
+      obtain ⟨r, hr⟩ := findIdx_complete (fun e => e.1 == m) sd.streams 0 e he (by simp [hem])
+      obtain ⟨i, nm, cs, ss⟩ := r
+      simp only [hr]
+      exact ⟨_, rfl⟩
+
+/-- an unknown service, or a method the service does not declare, is
+    `Unimplemented` (for a well-formed name) -/
+theorem C08_unknown_unimplemented (services : List (Method.Name × Method.ServiceDesc)) (svc m : Method.Name)
+    (hsvc : 47 ∉ svc)
+    (h : services.lookup svc = none ∨
+         ∃ sd, services.lookup svc = some sd ∧ m ∉ sd.methods ∧ m ∉ sd.streams.map (·.1)) :
+    Method.resolve services (47 :: (svc ++ 47 :: m)) = .unimplemented := by
+  unfold Method.resolve Method.splitMethod
+  simp only [Method.stripSlash, splitAtSlash_append svc m hsvc]
+  rcases h with h | ⟨sd, hl, hn1, hn2⟩
+  · simp [h]
+  · simp only [hl]
+    cases hf : Method.findMethod sd m with
+    | none => rfl
+    | some f =>
+      exfalso
+      unfold Method.findMethod at hf
+      cases hu : Method.findIdx (fun n => n == m) sd.methods 0 with
+      | some r =>
+        obtain ⟨i, x⟩ := r
+        obtain ⟨hp, _, hg⟩ := findIdx_spec _ _ _ _ _ hu
+        have hx : x = m := by simpa using hp
+        exact hn1 (hx ▸ List.mem_of_getElem? hg)
+      | none =>
+        simp only [hu] at hf
+        cases hst : Method.findIdx (fun e => e.1 == m) sd.streams 0 with
+        | none => simp [hst] at hf
+        | some r =>
+          obtain ⟨i, e⟩ := r
+          obtain ⟨hp, _, hg⟩ := findIdx_spec _ _ _ _ _ hst
+          have hx : e.1 = m := by simpa using hp
+          exact hn2 (List.mem_map.mpr ⟨e, List.mem_of_getElem? hg, hx⟩)
+
+-- non-vacuity: service "s" (115) with unary "a" (97) and stream "b" (98)
+example : Method.resolve [([115], ⟨[[97]], [([98], true, false)]⟩)] [47, 115, 47, 98] =
+    .found [115] (.stream 0 true false) := by decide
+example : Method.resolve [([115], ⟨[[97]], [([98], true, false)]⟩)] [47, 115, 47, 99] = .unimplemented := by decide
+example : Method.resolve [([115], ⟨[[97]], []⟩)] [47, 115] = .malformed := by decide
+
 /-! ### client side: allocation -/
 
 /-- **Client ids are unique and strictly increasing** over every history of
